@@ -11,6 +11,7 @@ import (
 	"math"
 	"net/http"
 	"net/http/httptest"
+	"os"
 	"path/filepath"
 	"reflect"
 	"sort"
@@ -310,6 +311,11 @@ type c09Sim struct {
 	// (dataFromUnits calls it while GET /control/stats builds the top clients,
 	// after the units were loaded and before the counters are summed).
 	countHook atomic.Pointer[func()]
+
+	// idHook, when set, is called from inside Config.UnitID: by the periodic
+	// worker's flush, by New, by the handlers (zz_verif_C09worker_test.go tells
+	// them apart by the call stack).
+	idHook atomic.Pointer[func()]
 }
 
 func (m *c09Sim) fail(bit int, f string, a ...any) {
@@ -352,9 +358,14 @@ func (m *c09Sim) conf(ms int64, en bool) Config {
 		panic(err)
 	}
 	return Config{
-		Ignored:        ign,
-		Logger:         slog.New(c09LogHandler{m}),
-		UnitID:         func() uint32 { return m.hour.Load() },
+		Ignored: ign,
+		Logger:  slog.New(c09LogHandler{m}),
+		UnitID: func() uint32 {
+			if h := m.idHook.Load(); h != nil {
+				(*h)()
+			}
+			return m.hour.Load()
+		},
 		ConfigModified: func() {},
 		ShouldCountClient: func([]string) bool {
 			if h := m.countHook.Load(); h != nil {
@@ -1427,6 +1438,12 @@ func TestVerifC09(t *testing.T) {
 	}
 	out.Class("db-pointer-atomic")
 
+	if os.Getenv("VERIF_C09_ONLY") == "worker" {
+		// Development aid: the worker class alone.
+		c09Workers(t, out, vfNewRand(out.Seed).Fork(0xC09C))
+		return
+	}
+
 	for _, h := range c09Prelude() {
 		c09RunHistory(t, out, h.name, h.id0, h.ms, h.en, h.ops)
 	}
@@ -1443,6 +1460,11 @@ func TestVerifC09(t *testing.T) {
 	// Schedules: GET /control/stats racing with updates, clean shutdown racing
 	// with the hourly flush and updates (zz_verif_C09conc_test.go).
 	c09Schedules(t, out, r)
+
+	// The periodic worker as part of the system: Start(), the hour id steps
+	// while the process is up, the roll-over is the worker's
+	// (zz_verif_C09worker_test.go).
+	c09Workers(t, out, r.Fork(0xC09C))
 
 	if out.Thorough() {
 		c09Concurrent(t, out)
